@@ -102,6 +102,9 @@ ETagPairs(St, vs) ==
             b \in {x \in Buckets : St.bver[x] # "Absent"}}
 \* functional and injective: same structure <=> same raw ETag
 ETagsConsistent(E) == \A p, q \in E : ((p[1] = q[1]) <=> (p[2] = q[2]))
+\* incremental form: E is consistent already (it only ever grows through accepted steps), so only
+\* the pairs N observed in this step have to be compared - linear instead of quadratic in |E|
+ETagsStillConsistent(E, N) == \A p \in N : \A q \in E \cup N : ((p[1] = q[1]) <=> (p[2] = q[2]))
 MTimePairs(St, vs) ==
   UNION {UNION {{<< <<b, k, St.objs[b][k][i].vid, St.objs[b][k][i].mseq>>,
                     LoggedVersion(vs, b, k, St.objs[b][k][i].vid).mtime >> :
@@ -178,7 +181,7 @@ StepMatches(e, a) ==
   /\ LViews(e.views) = MViews(a.s)
   /\ GetAgrees(e, a.s)
   /\ Functional(mtimes \cup MTimePairs(a.s, e.views))          \* C13: Last-Modified per version identity
-  /\ ETagsConsistent(etags \cup ETagPairs(a.s, e.views))        \* C04: ETag is a function of the structure
+  /\ ETagsStillConsistent(etags, ETagPairs(a.s, e.views))       \* C04: ETag is a function of the structure
   /\ PlacementOK(e, a.s)                                        \* C14: part data placement
 FirstMatch(e) ==
   IF \E i \in 1..Len(Cands) : StepMatches(e, Apply(With(Cands[i]), e.call))
@@ -229,8 +232,10 @@ TNext == l <= Len(Trace) /\ (TReset \/ (Trace[l].call.op # "Reset" /\ Trace[l].f
 \* ------------------------------------------------ invariants on the observed behaviour
 \* evaluated on behaviours in which the code has followed the intended design so far
 TSane == taken = {} => StateOK(S)
-\* C04 (structure): the raw ETag is a function of the ETag structure term, and injective
-TETags == ETagsConsistent(etags)
+\* C04 (structure): the raw ETag is a function of the ETag structure term, and injective.  Every
+\* accepted step has checked its own pairs against the table (StepMatches), so the table is
+\* consistent by construction; the full quadratic check runs once, on the final state.
+TETags == l = Len(Trace) + 1 => ETagsConsistent(etags)
 \* C13: Last-Modified of a version identity never changes
 TMTimes == \A p, q \in mtimes : p[1] = q[1] => p[2] = q[2]
 
